@@ -158,6 +158,10 @@ func evalC05(c *core.Ctx, e *eco.Eco, op string, args []string) []core.Violation
 	if e == nil || len(args) < 6 {
 		return nil
 	}
+	if op == "shorthand-after-volume" && len(args) >= 7 {
+		v, _ := strconv.Atoi(args[6])
+		return c05Volume(c, c.NewW(), e, v)
+	}
 	text, probe, form, ivsS, zone, claim := args[0], args[1], args[2], args[3], args[4], args[5]
 	mk := func(rule, got, want string) []core.Violation {
 		return []core.Violation{{Eco: e.Name, Op: "shorthand", Args: args[:6], Rule: form + ":" + rule, Got: got, Want: want}}
@@ -545,6 +549,15 @@ func runC05(c *core.Ctx, ck *Check) {
 			jobs = append(jobs, job{n, k})
 		}
 	}
+	// state that builds up: V distinct shorthand constraints (every construct of the table on bases 5.<i>.3 / 5.<i> /
+	// <i>, more than 2^16 at quick, 2^20 at thorough) are parsed and asked about their own base; then the FIRST ones are
+	// judged again against the table (bound caches, parsed-range memo tables, rings that wrap)
+	volEcos := []string{"npm", "cargo", "composer", "conan", "gem", "hex", "pypi"}
+	c.Parallel(len(volEcos), func(w *core.W, i int) {
+		for _, v := range c05Volume(c, w, eco.ByName(volEcos[i]), c.Scale(70000, 1100000)) {
+			w.Report(v)
+		}
+	})
 	c.Parallel(len(jobs), func(w *core.W, i int) {
 		j := jobs[i]
 		e := eco.ByName(j.eco)
@@ -658,4 +671,55 @@ func runC05(c *core.Ctx, ck *Check) {
 			}
 		}
 	})
+}
+
+// c05Volume: the first 400 bases are judged against the table before and after V distinct shorthand constraints were
+// parsed and used; a judgement that fails only afterwards is reported (op shorthand-after-volume).
+func c05Volume(c *core.Ctx, w *core.W, e *eco.Eco, V int) []core.Violation {
+	mk := func(i int) base3 { return base3{x: 5, y: i, z: 3, arity: 2 + i%2} }
+	judge := func() map[string]core.Violation {
+		out := map[string]core.Violation{}
+		for i := 0; i < 400; i++ {
+			b := mk(i)
+			for _, cs := range shorthandCases(e.Name, b) {
+				for _, pr := range shorthandProbes(e.Name, b, nil) {
+					w.Count("evaluations", 1)
+					for _, v := range evalC05(c, e, "shorthand", []string{cs.text, pr, cs.form, cs.ivs, cs.zone, cs.claim}) {
+						out[cs.text+"\x00"+pr+"\x00"+v.Rule] = v
+					}
+				}
+			}
+		}
+		return out
+	}
+	before := judge()
+	distinct := 0
+	for i := 0; i < V; i++ {
+		b := mk(i)
+		for _, cs := range shorthandCases(e.Name, b) {
+			rg, err, pn := e.SafeNewRange(cs.text)
+			if pn != nil || err != nil || rg == nil {
+				continue
+			}
+			distinct++
+			if v, err, pn := e.SafeNewVersion(b.str()); pn == nil && err == nil && v != nil {
+				eco.SafeContains(rg, v)
+			}
+		}
+	}
+	w.Count("volume_distinct_shorthand_constraints", int64(distinct))
+	var out []core.Violation
+	per := map[string]int{}
+	for k, v := range judge() {
+		if _, ordinary := before[k]; ordinary {
+			continue
+		}
+		if per[v.Rule] < 2 {
+			per[v.Rule]++
+			v.Op, v.Rule = "shorthand-after-volume", "after-volume:"+v.Rule
+			v.Args = append(append([]string{}, v.Args...), itoa(V))
+			out = append(out, v)
+		}
+	}
+	return out
 }
